@@ -11,7 +11,7 @@
 #[path = "../../common/mod.rs"]
 mod common;
 use common::*;
-use rlib_f80::f80;
+use rlib_f80::{f80, f80_init};
 use rlib_num_traits::ZeroOne;
 use std::cmp::Ordering;
 
@@ -79,6 +79,15 @@ fn show64(x: f64) -> String {
     } else {
         format!("{:016x}", x.to_bits())
     }
+}
+
+/// `fnstcw`: precision control (bits 8-9), rounding control (bits 10-11), exception masks (bits 0-5)
+fn control_word() -> u16 {
+    let mut cw: u16 = 0;
+    unsafe {
+        core::arch::asm!("fnstcw WORD PTR [{0}]", in(reg) &mut cw as *mut u16, options(nostack));
+    }
+    cw
 }
 
 struct Opd {
@@ -205,12 +214,11 @@ fn run_case(line: &str) -> String {
             }
             out1(&outs.join(" "))
         }
-        "const" => out1(&format!(
-            "zero={} one={} default={}",
-            show80(f80::ZERO),
-            show80(f80::ONE),
-            show80(f80::default())
-        )),
+        "const" => {
+            let v = format!("zero={} one={} default={}", show80(f80::ZERO), show80(f80::ONE), show80(f80::default()));
+            // raw-only diagnostic: the x87 control word as it is now (after `f80_init()` unless --noinit)
+            out2(&format!("{} cw={:04x}", v, control_word()), &v)
+        }
         _ => bad(),
     }
 }
@@ -421,25 +429,46 @@ fn gen(args: &Args, emit: &mut dyn FnMut(String), stats: &mut Stats) {
     emit("const".into());
     stats.bump("const");
 
+    // `--stream preinit`: a small stream that `checks/C18.py` runs in a separate process *without* `f80_init()`
+    if args.extra.get("stream").map(|s| s.as_str()) == Some("preinit") {
+        let partners: Vec<u64> = [1.0f64, 3.0, 0.1, -7.0, 1e-310, 1e300, f64::MAX, 4.9e-324].iter().map(|x| x.to_bits()).collect();
+        for &x in bset.iter() {
+            for &y in partners.iter() {
+                emit(format!("ar {} {}", tok64(x), tok64(y)));
+                stats.bump("preinit_ar");
+            }
+            emit(format!("un {}", tok64(x)));
+            emit(format!("ch {} / {} * {}", tok64(x), tok64(3.0f64.to_bits()), tok64(3.0f64.to_bits())));
+            stats.add("preinit_un_ch", 2);
+        }
+        for _ in 0..3000 {
+            let a = rand80(&mut rng, false);
+            let bb = related80(&mut rng, a);
+            emit(format!("ar {} {}", tok80(a.0, a.1), tok80(bb.0, bb.1)));
+            emit(format!("un {}", tok80(a.0, a.1)));
+            stats.add("preinit_random80", 2);
+        }
+        return;
+    }
+
     // --- B x B ----------------------------------------------------------------------------------
-    // quick: every pair of a fixed-stride subset (every value of B is used in the unary stream);
-    // thorough: every pair of B
-    let sub: Vec<u64> = if thorough {
-        bset.clone()
-    } else {
-        let stride = 3usize;
-        let off = (args.seed % stride as u64) as usize;
-        bset.iter().enumerate().filter(|(i, x)| i % stride == off || f64::from_bits(**x).is_nan() || (**x << 1) == 0 || f64::from_bits(**x).is_infinite()).map(|(_, x)| *x).collect()
-    };
-    stats.add("pair_set_size", sub.len() as u64);
-    for &x in sub.iter() {
-        for &y in sub.iter() {
-            emit(format!("ar {} {}", tok64(x), tok64(y)));
-            emit(format!("cmp {} {}", tok64(x), tok64(y)));
+    // thorough: every ordered pair of B.  quick: every element of B is paired (both orders) with every "special"
+    // (zeros, infinities, NaNs) and with the elements whose index sum falls in one residue class mod 8, so no part
+    // of B is left unpaired whatever the seed is.
+    let special = |x: u64| f64::from_bits(x).is_nan() || (x << 1) == 0 || f64::from_bits(x).is_infinite();
+    let off = (args.seed % 8) as usize;
+    let mut npairs = 0u64;
+    for (i, &x) in bset.iter().enumerate() {
+        for (j, &y) in bset.iter().enumerate() {
+            if thorough || special(x) || special(y) || (i + j) % 8 == off {
+                emit(format!("ar {} {}", tok64(x), tok64(y)));
+                emit(format!("cmp {} {}", tok64(x), tok64(y)));
+                npairs += 1;
+            }
         }
     }
-    stats.add("ar_boundary_pairs", (sub.len() * sub.len()) as u64);
-    stats.add("cmp_boundary_pairs", (sub.len() * sub.len()) as u64);
+    stats.add("ar_boundary_pairs", npairs);
+    stats.add("cmp_boundary_pairs", npairs);
     for &x in bset.iter() {
         emit(format!("un {}", tok64(x)));
         stats.bump("un_boundary");
@@ -452,7 +481,7 @@ fn gen(args: &Args, emit: &mut dyn FnMut(String), stats: &mut Stats) {
         emit(format!("ch {} / {} * {}", tok64(x), three, three));
         stats.bump("ch_div3mul3");
     }
-    let nch = if thorough { 400_000 } else { 24_000 };
+    let nch = if thorough { 400_000 } else { 16_000 };
     for _ in 0..nch {
         let a = rand_f64(&mut rng, &bset);
         let bb = rand_f64(&mut rng, &bset);
@@ -488,7 +517,7 @@ fn gen(args: &Args, emit: &mut dyn FnMut(String), stats: &mut Stats) {
     }
 
     // --- random f64 patterns ----------------------------------------------------------------------
-    let nr = if thorough { 1_200_000 } else { 45_000 };
+    let nr = if thorough { 1_200_000 } else { 28_000 };
     for _ in 0..nr {
         let x = rand_f64(&mut rng, &bset);
         let y = match rng.below(6) {
@@ -508,7 +537,7 @@ fn gen(args: &Args, emit: &mut dyn FnMut(String), stats: &mut Stats) {
     }
 
     // --- 80-bit operands (what chain intermediates look like), all 64 significand bits in use --------
-    let n80 = if thorough { 1_000_000 } else { 45_000 };
+    let n80 = if thorough { 1_000_000 } else { 28_000 };
     for _ in 0..n80 {
         let a = rand80(&mut rng, false);
         let bb = related80(&mut rng, a);
@@ -529,7 +558,7 @@ fn gen(args: &Args, emit: &mut dyn FnMut(String), stats: &mut Stats) {
         }
     }
     // --- every bit pattern class, including encodings no operation produces (small separate stream) ---
-    let nx = if thorough { 200_000 } else { 15_000 };
+    let nx = if thorough { 200_000 } else { 10_000 };
     for _ in 0..nx {
         let a = rand80(&mut rng, true);
         let bb = if rng.chance(1, 2) { rand80(&mut rng, true) } else { related80(&mut rng, a) };
@@ -547,5 +576,12 @@ fn gen(args: &Args, emit: &mut dyn FnMut(String), stats: &mut Stats) {
 }
 
 fn main() {
+    // The crate's documentation: "Make sure to call f80_init() in the beginning of fn main()".  Everything compared by the
+    // main run is therefore arithmetic *after* the documented initialisation; `--noinit 1` (used by the separate
+    // pre-initialisation stream) skips the call.
+    let noinit = std::env::args().collect::<Vec<_>>().windows(2).any(|w| w[0] == "--noinit" && w[1] == "1");
+    if !noinit {
+        f80_init();
+    }
     cli(gen, run_case);
 }
